@@ -1090,6 +1090,7 @@ func c12RunUDP(c *core.Ctx, k c12Case) {
 	// the whole association through the model's relay loop: the i-th event must be the i-th datagram's own
 	// decision, whatever was sent before it (seeded change C12-3: a cache filled before the filter)
 	loopEnds := false
+	sentinelLost := false
 	if len(pkts) > 0 {
 		run := c.Model.Ask("socks-udp-run %s %s %s", k.Mode, c12UserArg(&user), strings.Join(runArgs, " "))
 		evs := strings.Fields(strings.TrimPrefix(run, "ok"))
@@ -1178,8 +1179,10 @@ func c12RunUDP(c *core.Ctx, k c12Case) {
 			c.Disagree("C12/corr/udp/loop-end", "model: the relay loop returns at the malformed datagram; impl: ServeConn is still running", k)
 		}
 	} else if !arrived["sentinel4"] {
+		// round 4: no early return — what DID arrive is still judged by the direct oracle below (a change that
+		// breaks the sentinel may at the same time let a forbidden datagram through)
+		sentinelLost = true
 		c.Disagree("C12/corr/udp/sentinel", "a datagram to an ordinary name (resolved to the local listener) was not relayed: the association is not working", k)
-		return
 	}
 	collect(n.udp4, 60*time.Millisecond)
 	collect(n.udp6, 60*time.Millisecond)
@@ -1212,7 +1215,7 @@ func c12RunUDP(c *core.Ctx, k c12Case) {
 				c.Disagree("C12/corr/udp/"+k.Mode, fmt.Sprintf("datagram header %x user %q: model %s, but it arrived at the listener", p.hdr, user, p.model), k)
 			}
 		case strings.HasPrefix(p.model, "ok send "):
-			if !got && !p.opt {
+			if !got && !p.opt && !sentinelLost {
 				c.Disagree("C12/corr/udp/"+k.Mode, fmt.Sprintf("datagram header %x user %q: model %s, but nothing arrived", p.hdr, user, p.model), k)
 			}
 		default:
@@ -1634,6 +1637,37 @@ func init() {
 							for i := range hs {
 								c12Run(c, c12Case{Kind: "udp", Mode: mode, Cfg: cfg, User: u, Datagrams: hs[i : i+1], Listeners: ls[i : i+1], Label: "single"})
 							}
+						}
+					}
+				}
+			}
+			// round 4 (seeded C12-6: a per-association verdict cache keyed by string(dst.IP) — every domain-typed
+			// destination shares the key ""): EVERY run, within ONE association, an ordinary public name FIRST and only
+			// then the forbidden names / literals-as-names, then the public name again and the forbidden ones once more;
+			// also the mirror image (a forbidden name first, then the public name, which must still be relayed).
+			{
+				nm := func(s, lis string) udpDst { return udpDst{c12Dst{FQDN: s, Form: "domain"}, lis} }
+				forbidden := []udpDst{
+					nm("localhost", "udp4"), nm("LocalHost", "udp4"), nm("ip6-localhost", "udp6"), nm("127.0.0.1", "udp4"),
+					nm("LOCALHOST4.localdomain4", "udp4"), nm("::1", "udp6"), nm("::ffff:127.0.0.1", "udp4"), nm("", "udp4"),
+					{c12IPDst([]byte{127, 0, 0, 1}, 0), "udp4"}, {c12IPDst(net.ParseIP("::1").To16(), 0), "udp6"},
+				}
+				pub4, pub6 := nm("first.test", "udp4"), nm("first.test6", "udp6")
+				orders := map[string][]udpDst{}
+				orders["public-name-first"] = append(append(append([]udpDst{pub4}, forbidden...), pub6, pub4), forbidden...)
+				orders["forbidden-name-first"] = append(append([]udpDst{forbidden[0], pub4, forbidden[3], pub6}, forbidden...), pub4)
+				// an IP-typed allowed header first, then names (a cache keyed by the name alone: IP-typed headers share "")
+				orders["public-name-then-ip"] = []udpDst{pub4, forbidden[8], forbidden[9], forbidden[0], pub6, forbidden[8]}
+				for _, mode := range []string{"stream", "datagram"} {
+					for _, u := range []*string{nil, strp("u0"), strp("uP"), strp("uL"), strp("uLP")} {
+						for _, label := range []string{"public-name-first", "forbidden-name-first", "public-name-then-ip"} {
+							var hs, ls []string
+							for _, x := range orders[label] {
+								hs = append(hs, hdr(x.d))
+								ls = append(ls, x.lis)
+							}
+							c.Hist("udp_order", mode+"/"+label)
+							c12Run(c, c12Case{Kind: "udp", Mode: mode, Cfg: plain, User: u, Datagrams: hs, Listeners: ls, Label: label})
 						}
 					}
 				}
